@@ -12,7 +12,8 @@
 (*           non-injective ones, where the relation form matters);         *)
 (*   "box"   one glyph x every command list of length <= MaxCmds over a    *)
 (*           3 x 3 grid of end points (curves carry control points outside *)
-(*           the grid) x every matrix;                                     *)
+(*           the grid) x every matrix (MaxCmds <= 2; eight matrices for    *)
+(*           longer lists);                                                *)
 (*   "fbox"  three glyphs, each one of seven archetypes (empty, closepath  *)
 (*           only, a point at the origin, a point elsewhere, ...) x every  *)
 (*           matrix: unions, zero boxes, missing .notdef;                  *)
@@ -29,6 +30,8 @@ A2s == {2, -2, 1, 2000}          \* a, d = 0.001, -0.001, 0.0005, 1
 Ts == {0, 10}
 Mats == [a2 : A2s, d2 : A2s, tx : Ts, ty : Ts]
 Mat0 == [a2 |-> 2, d2 |-> 2, tx |-> 0, ty |-> 0]
+\* for the longest command lists: every scale once in each position, both translations
+MatsSmall == {[a2 |-> p[1], d2 |-> p[2], tx |-> t, ty |-> 10 - t] : p \in {<<2, -2>>, <<-2, 1>>, <<1, 2000>>, <<2000, 2>>}, t \in Ts}
 Grid == {-3, 0, 2}
 WidthsQ == {0, 250, 1000, -50, 600}
 
@@ -63,7 +66,8 @@ ListGrow == /\ Family = "list" /\ phase = "enc" /\ Len(F.enc) < MaxEnc
 
 \* ---- family box
 BoxPick == /\ Family = "box" /\ phase = "start"
-           /\ \E m \in Mats : F' = [F EXCEPT !.mat = m, !.glyphs = <<[name |-> "a", w |-> 600, cmds |-> <<>>]>>]
+           /\ \E m \in (IF MaxCmds <= 2 THEN Mats ELSE MatsSmall) :
+                 F' = [F EXCEPT !.mat = m, !.glyphs = <<[name |-> "a", w |-> 600, cmds |-> <<>>]>>]
            /\ phase' = "cmds"
 BoxGrow == /\ Family = "box" /\ phase = "cmds" /\ Len(F.glyphs[1].cmds) < MaxCmds
            /\ \E c \in CmdAlpha : F' = [F EXCEPT !.glyphs[1].cmds = Append(@, c)]
